@@ -191,7 +191,9 @@ class Loops:
 
     def check_invs(self, ex, key, env, i, phase, extra=None):
         for name, props, f in self.collect_invs(ex, key, env, i, extra):
-            ex.prove('%s#loop%s:%s[%s]' % (key[0].split(':')[-1], key[1], name, phase), props, f)
+            import re
+            who = re.sub(r'\{(=[^}]*|other)\}$', '', key[0].split(':')[-1])
+            ex.prove('%s#loop%s:%s[%s]' % (who, key[1], name, phase), props, f)
 
     def assume_invs(self, ex, key, env, i, extra=None):
         for name, props, f in self.collect_invs(ex, key, env, i, extra):
